@@ -656,3 +656,47 @@ def linear_args_unread(ctx, world):
         txt = (norm_text(par.node) if par.node is not None else str(par))[:70]
         ctx.fail("A5.selfread", construct_of(e), f"{construct_of(e)}|reads-own-argument", e.loc, f"the JVP table declares {e.prim_id} linear in argument {e.argnum}, yet the VJP rule of that argument uses the argument's own value (`{txt}`): the derivative of a linear map does not depend on the point - this is the rule of another slot (or not the adjoint of the declared tangent map)", "the two operands of the function different from each other (x != y): the cotangent is multiplied by the wrong operand")
     ctx.floor("A5.selfread rules analysed", n, 40)
+
+
+def cotangent_selections(ctx, world):
+    """A5.cut on its own (for C08): a rule that chooses its code path by the VALUE of the (co)tangent - `if not
+    any(g): return zeros(..)` - evaluates that test on the raw value even when the (co)tangent is a box of an
+    enclosing differentiation level.  A cotangent that is zero AT the evaluation point but depends on the outer
+    variable is replaced by a constant: the outer level's dependence is dropped - perturbation confusion at the rule
+    level.  Accepted only: the zero-term shortcut that is disabled for traced (co)tangents (isbox(c) or any(c))."""
+    from ..model import norm_text as _nt
+
+    ctx.describe("A5.cut", "no VJP / JVP rule selects its result by the raw value of the (co)tangent (`if any(g)`, `if g == 0` ...) unless the selection is the zero-term shortcut disabled for traced (co)tangents: in a nested differentiation the (co)tangent is a box of the enclosing level whose value may be zero while its derivative is not")
+    n = 0
+    for e in world.table.entries:
+        if e.spec != "maker" or not world.in_numpy_scope(e):
+            continue
+        ir = world.ir(e)
+        if ir is None or not ir.ok:
+            continue
+        n += 1
+        if e.api in ("defjvp_argnums",):
+            isg = lambda t: t.op == "sym" and t.get("role") in ("g", "gs")
+        else:
+            isg = lambda t: t.op == "sym" and t.get("role") == "g"
+        L = Lin(world, isg)
+        if ir.maker is not None and hasattr(ir.maker.fnode, "args"):
+            ma_ = ir.maker.fnode.args
+            L.named_params = frozenset(a_.arg for a_ in ma_.posonlyargs + ma_.args + ma_.kwonlyargs)
+        L.of(ir.result)
+        bad = False
+        for cond_, aware in L.zero_skips:
+            inst_ = construct_of(e) + "|" + (_nt(cond_.node) if cond_.node is not None else "?")
+            if aware:
+                ctx.ob("A5.cut", inst_, True, e.loc, sample="the zero-term shortcut is disabled for a traced (co)tangent")
+            else:
+                bad = True
+                ctx.fail("A5.cut", inst_, inst_, e.loc, f"the rule skips a term when `{_nt(cond_.node) if cond_.node is not None else cond_}` is false; the test reads the raw value of the (co)tangent, which in a nested differentiation is a box of the enclosing level", "reverse-over-reverse at a point where the cotangent reaching this rule is exactly zero but depends on the outer variable (the Hessian of 0.5 x.(A x) at x = 0)")
+        sel = [w_ for w_ in L.why if w_.startswith("control flow on the (co)tangent's value")]
+        if sel:
+            bad = True
+            inst_ = construct_of(e) + "|" + (L.blamed[0] if L.blamed else "?")
+            ctx.fail("A5.cut", inst_, inst_, e.loc, f"the rule chooses its code path by the value of the (co)tangent ({sel[0]}): the test is evaluated on the raw value even when the (co)tangent is traced at an enclosing level, whose dependence is then dropped", "reverse-over-reverse / forward-over-reverse at a point where the cotangent reaching this rule is exactly zero but depends on the outer variable (the Hessian of 0.5 x.(A x) at x = 0)")
+        if not bad:
+            ctx.ob("A5.cut", construct_of(e), True, e.loc, nontrivial=False)
+    ctx.floor("A5.cut closures analysed", n, 250)
